@@ -300,6 +300,17 @@ def gen_items(tier, which):
     return [{'name': p['name'], 'src': p['src'], 'twin': p.get('twin')} for p in ps]
 
 
+def effectful_arguments(tier):
+    """C01 quantifies over all well-typed programs, not only the effect-sequenced fragment: arguments are evaluated left to
+    right, integers and data eagerly, codata by name (FunM).  Families with effects in every argument position, effects under
+    codata bindings, goto in by-name / by-value argument positions, and the extended random grammar in mode 'all'."""
+    import funprogs
+    import funrand
+    ps = funprogs.effects_in_arguments() + [p for p in funprogs.positions_and_codata() if p['name'].startswith('codata-eff')] + funprogs.goto_in_arguments()
+    ps = ps + [dict(p, name=p['name'] + '/c01') for p in funrand.programs_ext('all', list(range(1000, 1150 if tier == 'quick' else 2500)), 3)]
+    return [{'name': p['name'], 'src': p['src']} for p in ps]
+
+
 def c02_key(r, k, v):
     """role key: a capture shows up only with name reuse; the renamed-apart twin decides"""
     if r.get('twin_status') == 'ok':
@@ -469,8 +480,8 @@ def native_item(item):
 
 def c01():
     tier = fw.tier()
-    items = [dict(it, pairs=[('fun', 'x86')]) for it in corpus() + gen_items(tier, 'sequenced')]
-    return run_tv('C01', items, "repository corpus + the effect-sequenced families; FunM x symbolic execution of the printed x86-64 routine "
+    items = [dict(it, pairs=[('fun', 'x86')]) for it in corpus() + gen_items(tier, 'sequenced') + effectful_arguments(tier)]
+    return run_tv('C01', items, "repository corpus + the effect-sequenced families + effects in argument positions (families and extended random grammar, distinct binders); FunM x symbolic execution of the printed x86-64 routine "
                   "(prologue, body, epilogue; concrete-layout mode) with the driver / print contracts of C20; exit status compared modulo 256",
                   key_fn=c02_key, pre=validate_models)
 
